@@ -419,7 +419,14 @@ def run_cadence(case):
     return res
 
 
-KINDS = {"scripted": run_scripted, "realpool": run_realpool, "cadence": run_cadence}
+def run_session14(case):
+    """One clustering sampler object through save / load / iterate sequences, label/mode coherence monitor armed at every kernel entry."""
+    from mc import session
+    c = dict(case, raise_is_violation=True)
+    return session.run_case(c, lambda: [coherence_monitor()], oracle=None, key_pred=None)
+
+
+KINDS = {"session": run_session14, "scripted": run_scripted, "realpool": run_realpool, "cadence": run_cadence}
 
 
 def plan(ctx):
@@ -453,4 +460,11 @@ def plan(ctx):
     ctx.bounds.update({"scripted": {"K": [2, 3], "m": [4, 5, 6], "n_resampled": 3}, "cadence": {"cluster_every": [1, 2, 3, 4, 5, 7], "configs": len(c), "resume": "from every checkpoint"}})
     if not th:
         ctx.notes.append("quick: one third of the cadence lattice and one eighth of the three-blob pools (rotated by VERIF_SEED); every selected run is resumed from every checkpoint")
+    ses = []
+    for ce in (2, 3):
+        for tgt in ("bimodal", "unequal"):
+            scfg = dict(clustering=True, cluster_every=ce, n_particles=24, d=2, ess_ratio=1.0, n_total=10 ** 6, target=tgt, sample="tpcn" if ce == 2 else "rwm")
+            for sh in range(4):
+                ses.append({"kind": "session", "cfg": scfg, "base": ctx.seed, "depth": 9, "patterns": [sh, 4 if th else 8]})
+    ctx.explore("session-sequences", ses)
     agg = ctx.explore("cadence-and-resume", c)
